@@ -747,14 +747,18 @@ def _cycle_shapes_failures():
     work = tempfile.mkdtemp(prefix='redo-verif-cyc.', dir='/var/tmp')
     fails, n = [], 0
     try:
-        shapes = [(k, stamped, entry, j, None) for k in (2, 3) for stamped in ('none', 'first', 'last', 'all') for entry in ['top'] + ['t%d' % i for i in range(k)] for j in (1, 4)]
+        shapes = [(k, stamped, entry, j, None, 'A') for k in (2, 3) for stamped in ('none', 'first', 'last', 'all') for entry in ['top'] + ['t%d' % i for i in range(k)] for j in (1, 4)]
         # the same through redo-ifchange (the out-of-band path: an uncertain checksummed dependency is built by redo-unlocked
         # while the caller keeps its lock), -j1 only
-        shapes += [(k, stamped, entry, 0, None) for k in (2, 3) for stamped in ('first', 'last', 'all') for entry in ['top'] + ['t%d' % i for i in range(k)]]
+        shapes += [(k, stamped, entry, 0, None, 'A') for k in (2, 3) for stamped in ('first', 'last', 'all') for entry in ['top'] + ['t%d' % i for i in range(k)]]
+        # family B: only the last member reads the source, so the others are out of date only THROUGH a (checksummed) dependency and
+        # are 'uncertain' rather than dirty: the decision goes through redo-unlocked while the caller keeps its lock.  Whether the
+        # cycle is run into depends on the checksums; what is required here is that the command ENDS
+        shapes += [(k, stamped, entry, j, None, 'B') for k in (2, 3) for stamped in ('first', 'last', 'all') for entry in ['top'] + ['t%d' % i for i in range(k)] for j in (0, 1)]
         # the top-level command started with a REDO_CYCLES that is set but names nobody: empty, or with an empty item (the
         # value apenwarr's redo writes always carries one)
-        shapes += [(2, 'none', entry, j, cyc) for cyc in ('', ':999983', '999983:') for entry in ('top', 't0', 't1') for j in (1, 4)]
-        for k, stamped, entry, j, cyc in shapes:
+        shapes += [(2, 'none', entry, j, cyc, 'A') for cyc in ('', ':999983', '999983:') for entry in ('top', 't0', 't1') for j in (1, 4)]
+        for k, stamped, entry, j, cyc, fam in shapes:
             names = ['t%d' % i for i in range(k)]
             if True:
                 if True:
@@ -767,7 +771,9 @@ def _cycle_shapes_failures():
                         def script(i, closed):
                             st = stamped == 'all' or (stamped == 'first' and i == 0) or (stamped == 'last' and i == k - 1)
                             dep = names[i + 1] if i + 1 < k else ('t0' if closed else None)
-                            lines = ['redo-ifchange src']
+                            # only the last member reads the source: the others are out of date only THROUGH their dependency, so that a
+                            # checksummed one in between makes them 'uncertain' (the out-of-band path) rather than plainly dirty
+                            lines = ['redo-ifchange src'] if (fam == 'A' or i == k - 1) else []
                             if st:
                                 lines.append('echo constant | redo-stamp')
                             if dep:
@@ -784,10 +790,10 @@ def _cycle_shapes_failures():
                             continue
                         open(os.path.join(proj, names[k - 1] + '.do'), 'w').write(script(k - 1, True))
                         open(os.path.join(proj, 'src'), 'w').write('two, longer\n')
-                        hist = 'chain of %d, redo-stamp before the dependency in: %s; built once; %s.do now asks for t0; src edited; %sredo -j%d %s' % (k, stamped, names[k - 1], '' if cyc is None else 'REDO_CYCLES=%r ' % cyc, j, entry) + ('' if j else ' [-j0 stands for: redo-ifchange <entry>]')
+                        hist = 'chain of %d (%s), redo-stamp before the dependency in: %s; built once; %s.do now asks for t0; src edited; %sredo -j%d %s' % (k, 'every member reads src' if fam == 'A' else 'only the last member reads src', stamped, names[k - 1], '' if cyc is None else 'REDO_CYCLES=%r ' % cyc, j, entry) + ('' if j else ' [-j0 stands for: redo-ifchange <entry>]')
                         try:
                             r = _run_group((['redo', '--no-log', '-j%d' % j, entry] if j else ['redo-ifchange', entry]), 20, cwd=proj, env=env_)
-                            if r.returncode == 0:
+                            if r.returncode == 0 and fam == 'A':
                                 fails.append(dict(input=hist, observed='exit 0', clause='a build that runs into a dependency cycle ends with a non-zero status'))
                         except subprocess.TimeoutExpired:
                             fails.append(dict(input=hist, observed='still running after 20 s', clause='a build that runs into a dependency cycle ends'))
